@@ -63,6 +63,10 @@ type WriteRec struct {
 	Ops    []Op
 	Sync   bool
 	Direct bool
+	// Task and Site are filled in when SimDB.Who is set (concurrent runs): the
+	// scheduler task that issued the write and the innermost iavl frames of the call.
+	Task string
+	Site string
 }
 
 // Fault makes the N-th call (1-based) of Kind in step Step fail.
@@ -105,6 +109,8 @@ type SimDB struct {
 	// Hook, when set, is called before every storage call is served (no SimDB
 	// lock held). The scheduler uses it as a yield point.
 	Hook func(kind string)
+	// Who, when set, names the task that issues a physical write (see WriteRec).
+	Who func() string
 }
 
 var _ corestore.KVStoreWithBatch = (*SimDB)(nil)
@@ -343,6 +349,10 @@ func (d *SimDB) Delete(key []byte) error {
 }
 
 func (d *SimDB) apply(ops []Op, sync, direct bool) {
+	task, site := "", ""
+	if w := d.Who; w != nil {
+		task, site = w(), callSite()
+	}
 	d.mu.Lock()
 	defer d.mu.Unlock()
 	if d.openIters > 0 {
@@ -351,7 +361,7 @@ func (d *SimDB) apply(ops []Op, sync, direct bool) {
 	if d.KeepSnaps {
 		d.snaps = append(d.snaps, d.tree.Clone())
 	}
-	d.log = append(d.log, WriteRec{Step: d.step, Seq: len(d.log), Ops: ops, Sync: sync, Direct: direct})
+	d.log = append(d.log, WriteRec{Step: d.step, Seq: len(d.log), Ops: ops, Sync: sync, Direct: direct, Task: task, Site: site})
 	for _, op := range ops {
 		if op.Del {
 			d.tree.Delete(entry{k: string(op.K)})
